@@ -74,15 +74,15 @@ SPEC = {
     "modelled": [
         "Deserializer: ReadNum ReadBool ReadByte ReadUint256 ReadTime ReadBytes ReadBytesInPlace ReadVariableByteSlice ReadString Skip CheckTypePrefix ReadPayloadLength ConsumedAll "
         "ReadSequenceOfObjects (bounds + all element validators) ReadObject ReadSliceOfObjects (MustOccur) ReadPayload GetObjectType; callbacks are read programs on a fresh Deserializer",
-        "the offset Done() reports next to an error is not modelled (callers discard it); error identities are collapsed to 'err'",
-        "stream: Read[uintN|bool|[32|36|38]byte] ReadBytes ReadBytesWithSize ReadObject ReadObjectWithSize PeekSize ReadCollection, every prefix width; readers failing with errors other than EOF are not modelled",
+        "the chain helpers RemainingBytes, GetObjectType (as a call of its own), Do, AbortIf, WithValidation are primitives of the read programs; the offset Done() reports is modelled also next to an error (behind the prefix of a refused length, behind the elements read so far) and compared; error identities are collapsed to 'err'",
+        "stream: Read[uintN|intN|bool|[32|36|38]byte] ReadBytes ReadBytesWithSize ReadObject ReadObjectWithSize ReadObjectFromReader PeekSize ReadCollection, every prefix width; Offset/Skip/GoTo and ByteReader.BytesRead over a seekable reader; readers that return io.EOF together with data and readers that break with another error after K bytes (= the reader over the first K bytes)",
         "JSON: outcome class of mapDecode per target kind (bool, string, small ints, 64-bit ints, floats, big.Int, time, []byte, [N]byte, *[N]byte, slices, arrays, maps, structs with object code / embedded / inlined / optional fields, registered and unregistered interfaces, unsupported kinds); "
         "decoded values are not modelled (C01b), custom DeserializableJSON and syntactic validators are parameters that are absent",
         "serix binary Decode over registered types: model Hive/Model/Serix.lean, theorems Props/C02b.lean, tie = second part (harness/c02/serix over harness/serixgen, driver drv_c02b); in the first part serix.Decode of two catalogue types runs under the resource oracle only",
         "alloc = bytes requested with an input-dependent size (make/append/string conversion); fixed-size allocations per loop round are accounted by iters",
     ],
     "manifest": {
-        "text": "For every byte string and every chain of serializer.Deserializer primitives (incl. the callback-driven sequence/object/payload readers), every reader chunking and every stream Read* helper with every prefix width, and every JSON document against every target shape of MapDecode/JSONDecode: the call returns a value or an error and never panics (C02_deser_no_panic, C02_stream_no_panic, C02_json_no_panic; serix binary Decode over every schema: C02_no_panic), reports at most the bytes supplied (C02_deser_consumed_le, C02_stream_consumed_le, C02_consumed_le), allocates at most K*len resp. 5*len + 16 KiB bytes with explicit K = 1 + nesting depth (C02_alloc_linear, C02_stream_alloc_linear; a length field above the remaining input allocates nothing: C02_oversized_length_allocates_nothing) and iterates at most K*(len+1) times when sequence elements have positive size (C02_iters_linear, C02_stream_iters_linear). KNOWN DEFECT of the tree (not repaired, reported as KNOWN-FINDING on every run): a sequence whose elements are ZERO bytes wide iterates, appends and allocates as often as its length prefix says (2^20 element decodes for 4 input bytes) - the iteration theorems carry the hypothesis `pos` precisely because of it (witness C02_zero_size_items_witness); zero-width MAP entries are bounded by the duplicate-key rejection and stay under the oracle. Shared state of a serix.API: regenerated synchronisation skeletons pin the lock kind of every accessor of the struct-field cache and the registries (C02_skeleton_*), and 300 fresh APIs per run are used for the first time by 8 goroutines at once in a child process (a runtime abort is the oracle failure `fatal`). Models re-validated against the working tree on every run: ~27 000 mutated/hostile inputs and kind-mutated JSON documents, outcome class / consumed bytes / iteration counts / values compared line by line with the Lean driver, plus an independent Go oracle measuring panics, consumed bytes and TotalAlloc per call in an address-space-limited child process.",
+        "text": "For every byte string and every chain of serializer.Deserializer primitives (incl. the callback-driven sequence/object/payload readers), every reader chunking and every stream Read* helper with every prefix width, and every JSON document against every target shape of MapDecode/JSONDecode: the call returns a value or an error and never panics (C02_deser_no_panic, C02_stream_no_panic, C02_json_no_panic; serix binary Decode over every schema: C02_no_panic), reports at most the bytes supplied (C02_deser_offset_le - the offset Done() reports, also next to an error -, C02_stream_consumed_le, C02_stream_bytesRead_le, C02_consumed_le), allocates at most K*len resp. 5*len + 16 KiB bytes with explicit K = 1 + nesting depth (C02_alloc_linear, C02_stream_alloc_linear; a length field above the remaining input allocates nothing: C02_oversized_length_allocates_nothing) and iterates at most K*(len+1) times when sequence elements have positive size (C02_iters_linear, C02_stream_iters_linear). KNOWN DEFECT of the tree (not repaired, reported as KNOWN-FINDING on every run): a sequence whose elements are ZERO bytes wide iterates, appends and allocates as often as its length prefix says (2^20 element decodes for 4 input bytes) - the iteration theorems carry the hypothesis `pos` precisely because of it (witness C02_zero_size_items_witness); zero-width MAP entries are bounded by the duplicate-key rejection and stay under the oracle. Shared state of a serix.API: regenerated synchronisation skeletons pin the lock kind of every accessor of the struct-field cache and the registries (C02_skeleton_*), and 300 fresh APIs per run are used for the first time by 8 goroutines at once in a child process (a runtime abort is the oracle failure `fatal`). Constants and the normalised bodies of 22 decoder functions are re-extracted from the working tree on every run and tied to the models (C02_facts_*). Models re-validated against the working tree on every run: ~27 000 mutated/hostile inputs and kind-mutated JSON documents, outcome class / consumed bytes / iteration counts / values compared line by line with the Lean driver, plus an independent Go oracle measuring panics, consumed bytes and TotalAlloc per call in an address-space-limited child process.",
         "note": "Trusted: Lean kernel; the three hand-written models (tie = differential execution); Go library string syntaxes as modelled. static/pos hypotheses are about the calling program (unsupported prefix type, zero-size sequence elements), witnessed by C02_unsupported_prefix_witness and C02_zero_size_items_witness.",
         "technique": "Lean 4 proofs by mutual structural induction over read programs / target types with explicit cost invariants + differential correspondence + Go resource oracle",
     },
